@@ -57,10 +57,10 @@ var symX = sym{"x", "x"}
 var posOffenders = []posOffender{
 	{"unbalanced-brackets", kv{sym{"open", "a["}, symX}},
 	{"unbalanced-brackets", kv{sym{"open-known", "Strs["}, symX}},
-	{"unbalanced-brackets", kv{sym{"close", "a]"}, symX}},
-	{"unbalanced-brackets", kv{sym{"close-known", "Str]"}, symX}},
+	{"", kv{sym{"close", "a]"}, symX}}, // no '[': bracket notation is not engaged, no reference verdict
+	{"", kv{sym{"close-known", "Str]"}, symX}}, // no '[': bracket notation is not engaged, no reference verdict
 	{"unbalanced-brackets", kv{sym{"lone-open", "["}, symX}},
-	{"unbalanced-brackets", kv{sym{"lone-close", "]"}, symX}},
+	{"", kv{sym{"lone-close", "]"}, symX}}, // no '[': bracket notation is not engaged, no reference verdict
 	{"unbalanced-brackets", kv{sym{"deep-open", "a[b][c"}, symX}},
 	{"unbalanced-brackets", kv{sym{"reversed", "a][b"}, symX}},
 	{"unbalanced-brackets", kv{sym{"double-open", "a[[b]"}, symX}},
@@ -101,8 +101,11 @@ func keyRoot(k string) string {
 	return k
 }
 
-// unbalancedBrackets: the reference for "square brackets that do not match".
+// unbalancedBrackets: the reference for "a key in bracket notation (it has a '[') whose square brackets do not match".
 func unbalancedBrackets(k string) bool {
+	if !strings.Contains(k, "[") {
+		return false // a plain key that merely contains ']' is not bracket notation: no verdict
+	}
 	depth := 0
 	for i := 0; i < len(k); i++ {
 		switch k[i] {
@@ -246,7 +249,7 @@ func (t *tot) runPositions(quick bool, ordBase int64, col *collector, mine func(
 				for _, split := range []bool{false, true} {
 					idx++
 					pb.Cases++
-					if !mine(idx) {
+					if !mine(idx / 2) { // the two splitting settings of a case go to the same worker (one merged signature)
 						continue
 					}
 					t.runPositionCase(tg, off, list, split, ordBase+int64(idx), col)
